@@ -54,6 +54,10 @@ pub fn generate(prop: &str, tier: Tier, seed: u64, run: u64) -> Trace {
                 }
             }
         }
+        "C01" => crate::gen_term::gen_term("C01", &mut rng, run, thorough),
+        "C09" => crate::gen_term::gen_term("C09", &mut rng, run, thorough),
+        "C10" => crate::gen_term::gen_term("C10", &mut rng, run, thorough),
+        "C16" => crate::gen_term::gen_term("C16", &mut rng, run, thorough),
         _ => Trace::new(prop, "none"),
     };
     t.origin = format!("seed={seed} run={run} tier={}", tier.name());
